@@ -105,7 +105,7 @@ pub fn parse_with_counter(s: &TokSpec, token: &str) -> ParseOut {
         p.assertion(a);
       }
       let _ = p.validate(&data, COUNTING);
-      p.parse(token, &lk).map(|v| v.get("data").and_then(|d| d.as_str()).map(|x| x.to_string()))
+      p.parse(token, &lk).map(|v| crate::rt::message_of(&v))
     }
   };
   ParseOut { result, validator_calls: VCOUNT.with(|c| c.get()) }
@@ -882,6 +882,18 @@ pub fn run(ctx: &Ctx) -> EvidenceMeta {
     } else {
       let n = (ctx.n(6000, 100_000) / s.proto.cost().min(20)).max(200);
       jobs.push(Box::new(move || ctx.prop(s, random_case(s.proto, s.layer), n)));
+    }
+  }
+  // footers whose text ends in NULs, blanks or '=' (what a fixed, zero-filled or padded buffer would hide): every exhaustive
+  // operator again - among them every prefix of the token text, which cuts the footer segment back byte by byte
+  for s in subs.iter().filter(|s| s.kind == "exhaustive" && matches!(s.proto, Proto::V4L | Proto::V2L | Proto::V4P)) {
+    for (i, f) in ["kid-7\u{0}\u{0}", "\u{0}", "ab\u{0}", "k \u{0}\u{0}\u{0}", "pad==", "trailing  "].into_iter().enumerate() {
+      jobs.push(Box::new(move || {
+        let mut spec = fixed_spec(s.proto, s.layer, 1 + 2 * (i as u8 % 3));
+        spec.footer = Some(f.to_string());
+        let muts = exhaustive_mutations(&spec, 6);
+        ctx.enumerate(s, muts.into_iter().map(|m| TamperCase { tok: spec.clone(), m }), false);
+      }));
     }
   }
   let bs = &BoundaryShift;
